@@ -143,6 +143,7 @@ async fn run_proxy(rest: &str) -> String {
 //   sess <case-id> <xs: q,q,..|-> | <op> ; ...
 //     local actors (index i):   spawn i | join i g | leave i g | exit i | hexit i (exit, lifecycle event held back)
 //     frames arriving:          rcast i v bytes | rcall i tag v bytes          (i = 99: unknown pid)
+//                               hrcast / hrcall: the same, and the NEXT frame is handled back to back
 //                               fspawn q | fterm q | fjoin g q | fleave g q | freply q tag bytes
 //     through remote references: send q v bytes | scall q v bytes port | drop port
 //   one output per op: (mkU ok [wire] [dlv] [res] [px] [advertised])
@@ -250,6 +251,7 @@ async fn run_sess(rest: &str) -> String {
         }
         let mut ok = true;
         let mut hold = false;
+        let mut nosettle = false;
         let local_pid = |probes: &HashMap<u64, ActorCell>, i: u64| probes.get(&i).map(|c| c.get_id().pid()).unwrap_or(999_999);
         match w[0] {
             "spawn" => {
@@ -280,11 +282,14 @@ async fn run_sess(rest: &str) -> String {
                 }
                 hold = w[0] == "hexit";
             }
-            "rcast" => {
+            "rcast" | "hrcast" => {
+                // h...: the next frame is handled back to back (no task gets to run in between)
+                nosettle = w[0] == "hrcast";
                 let to = local_pid(&probes, u(w[1]));
                 sess.receive(VFrame::Cast { to, variant: w[2].to_string(), what: bytes(w[3]) }).await;
             }
-            "rcall" => {
+            "rcall" | "hrcall" => {
+                nosettle = w[0] == "hrcall";
                 let to = local_pid(&probes, u(w[1]));
                 sess.receive(VFrame::Call { to, tag: u(w[2]), variant: w[3].to_string(), what: bytes(w[4]), timeout_ms: None })
                     .await;
@@ -334,7 +339,9 @@ async fn run_sess(rest: &str) -> String {
             }
             other => panic!("unknown op {other}"),
         }
-        if hold {
+        if nosettle {
+            // nothing: the following operation's frame is handled immediately after this one
+        } else if hold {
             // let every task run, but leave the session's ports alone
             for _ in 0..3 {
                 tokio::time::sleep(Duration::from_millis(1)).await;
